@@ -3,24 +3,29 @@ C10, package L — the cache is free of data races: lock discipline of `cache/da
 for the lock-discipline IR regenerated from the Go source on every check
 (`gen/cachelock.go` → `Gen/CacheLockIR.lean`).
 
-* `analyse_sound`     the checker is sound for ALL control paths of a method;
+* `analyse_sound`     the checker is sound for ALL control paths of a method, through every
+  inlined helper call (`Stmt.call`: the callee's body runs in the caller's lock state);
 * `mutual_exclusion`, `no_race`  for ALL traces of ANY number of threads calling analysed
   methods in any order and interleaving, under `sync.Mutex` semantics;
 * `lock_discipline`   THE regenerated obligation: every method of `cache` passes the checker
   (fails to build on a tree whose `Stats` reads `len(c.items)` / `c.size` without the lock);
 * `cache_race_free`   `no_race` for the regenerated program;
-* `sections_expected` the critical-section decomposition of the source is the one the
-  transition systems of C09/C10 were written against.
+* `profile_sound`     the critical-section profile computed by `sectionsOf` covers every path;
+* `sections_expected` the critical-section profile of the source (which locations are touched
+  inside / outside the critical sections, one section or several, the lock given up only
+  around `OnDelete`) is the one the transition systems of C09/C10 were written against.
 -/
 import GolibsVerif.Lemmas.C10IR
+import GolibsVerif.Lemmas.C10Profile
 import GolibsVerif.Gen.CacheLockIR
 
 namespace GolibsVerif.C10
 open GolibsVerif.C10.Lock
 
 /-- Soundness of the checker: if `analyse` accepts a method then EVERY control path of its body
-(either branch of every `if`, any number of iterations of every loop, early returns) is well
-locked: walking the path from "lock not held, item not published", every event is permitted
+(either branch of every `if`, any number of iterations of every loop, early returns, every path
+through the body of every inlined helper — a `return` of a helper continues in its caller) is
+well locked: walking the path from "lock not held, item not published", every event is permitted
 (protected locations only under the lock and never atomically; counters only atomically; `conf`
 and published items never written; the local item written only before publication; publication
 only under the lock; `Lock` only when not held, `Unlock` only when held; `OnDelete` and
@@ -182,9 +187,69 @@ theorem cache_race_free
   no_race _ (List.all_eq_true.mp lock_discipline) tr hthreads hmutex pre mid post t1 t2 a1 a2 l
     hsplit hne hshared hrace
 
-/-- The critical-section decomposition of the source (where the lock is taken and released,
-what is accessed in between, where `OnDelete` runs) is the documented one. -/
-theorem sections_expected : Gen.CacheLockIR.sections = Expected.sections := by decide
+/-- Soundness of the critical-section profile: for EVERY control path of a method (through every
+inlined helper), every event is accounted for by the profile `sectionsOf m`.  Walking the path
+with the region state (`pre` = before the first `Lock`, `held` = inside a critical section,
+`free` = after an `Unlock`): a plain access to a lock-protected location / a publication / an
+`OnDelete` call in a region of kind `r` is in the profile's set for `r` (a read may be
+represented by the write of the same location); an atomic access is in `atomics`; the `n`-th `Lock` of the path (n saturating at 2) satisfies `n ≤ sections`; a `Lock`
+that follows an `Unlock` without an `OnDelete` call in between sets `relockBare`. -/
+theorem profile_sound (m : Method) (p : List Ev) (hp : Path m.body p) :
+    ∀ f ∈ pathFacts pinit p, (sectionsOf m).has f := by
+  intro f hf
+  apply profileOfFacts_has
+  rcases hp with hx | ⟨p', hx, rfl⟩
+  · exact (flow_sound hx pinit).1 f hf
+  · rw [pathFacts_append] at hf
+    simp only [pathFacts, PSt.facts, List.append_nil] at hf
+    exact (flow_sound hx pinit).1 f hf
+
+/-- ... in particular for accesses: a plain access to a lock-protected location on a path is in
+the may-access set of the kind of region it happens in. -/
+theorem Lock.profile_access (m : Method) (p p1 p2 : List Ev) (a : Acc) (l : Loc) (hp : Path m.body p)
+    (hsplit : p = p1 ++ Ev.acc a l :: p2) (ha : a ≠ .atomic) (hl : l.protected = true) :
+    covers ((sectionsOf m).region (pwalk pinit p1).reg.kind) (.acc a l) := by
+  subst hsplit
+  apply profile_sound m _ hp (.item (pwalk pinit p1).reg.kind (.acc a l))
+  rw [pathFacts_append]
+  apply List.mem_append_right
+  simp [pathFacts, PSt.facts, ha, hl]
+
+/-- ... and for the number of critical sections: a method whose profile says "at most one
+section" takes the lock at most once on every path. -/
+theorem Lock.one_section (m : Method) (h : (sectionsOf m).sections ≤ 1) (p : List Ev)
+    (hp : Path m.body p) : p.count .lock ≤ 1 := by
+  false_or_by_contra
+  rename_i hc
+  have h2 : 2 ≤ p.count .lock := by omega
+  have := profile_sound m p hp _ (sections_two_of_locks p pinit h2)
+  simp only [Profile.has] at this
+  omega
+
+/-- The critical-section profile of the source — per exported method: what may be accessed
+before the first `Lock`, inside the critical sections, after an `Unlock`; the atomics; whether a
+path can enter more than one critical section; whether the lock is ever given up mid-call other
+than around an `OnDelete` call — is the documented one (`Expected.sections`).  The profile is a
+normal form of the set of paths (`profile_sound`), so it does not change under helper
+extraction, statement reordering inside a region, `defer`, early-return restructuring. -/
+theorem sections_expected : Gen.CacheLockIR.sections = Expected.sections := by decide +kernel
+
+/-- Consequence for the source as it is: every exported method of `cache` other than `Set` takes
+the lock at most once on every control path (ONE critical section: the atomic step of the
+transition system of C09/C10). -/
+theorem cache_single_section (m : Method) (hm : m ∈ Gen.CacheLockIR.methods) (hn : m.name ≠ "Set")
+    (p : List Ev) (hp : Path m.body p) : p.count .lock ≤ 1 := by
+  apply Lock.one_section m _ p hp
+  have hmem : sectionsOf m ∈ Expected.sections := by
+    rw [← sections_expected]
+    exact List.mem_map.mpr ⟨m, hm, rfl⟩
+  have hall : Expected.sections.all (fun P => P.name == "Set" || decide (P.sections ≤ 1)) = true := by decide
+  have := List.all_eq_true.mp hall _ hmem
+  have hname : (sectionsOf m).name = m.name := rfl
+  simp only [hname, Bool.or_eq_true, beq_iff_eq, decide_eq_true_eq] at this
+  rcases this with h | h
+  · exact absurd h hn
+  · exact h
 
 /-! ## Non-vacuity -/
 
@@ -222,11 +287,29 @@ example : analyse ⟨"x", [.lock, .loop [] [.unlock], .unlock]⟩ = false := by 
 /-- the path semantics has the early-return path and the two-iteration path of a loop -/
 example : Path [.lock, .ite [.acc .read .items] [.unlock, .ret] [], .acc .write .items, .unlock]
     [.lock, .acc .read .items, .unlock, .ret] :=
-  ⟨true, .lock (.iteThen (.acc (.unlock .ret)))⟩
+  .inr ⟨_, .lock (.iteThen (.acc (.unlock .ret))), rfl⟩
 
 example : Path [.loop [.acc .read .size] [.acc .write .size], .ret]
     [.acc .read .size, .acc .write .size, .acc .read .size, .acc .write .size, .acc .read .size, .ret] :=
-  ⟨true, .loopIter (.acc (.acc (.loopIter (.acc (.acc (.loopExit (.acc .ret)))))))⟩
+  .inr ⟨_, .loopIter (.acc (.acc (.loopIter (.acc (.acc (.loopExit (.acc .ret))))))), rfl⟩
+
+/-- a helper's `return` ends the helper, not the method: after `full` returns (with the lock
+held — that is fine for a helper) the caller goes on and unlocks -/
+example : Path [.lock, .call "full" [.acc .read .size, .ite [] [.ret] [], .acc .read .items, .ret], .unlock]
+    [.lock, .acc .read .size, .unlock] :=
+  .inl (.lock (.call (p := [.acc .read .size]) (.acc (.iteThen .ret)) (.unlock .nil)))
+
+example : analyse ⟨"m", [.lock, .call "full" [.acc .read .size, .ite [] [.ret] [], .acc .read .items, .ret], .unlock]⟩
+    = true := by decide
+
+/-- defects hidden inside a helper are found through the call: an LRU move in a helper called
+after `Unlock`; a helper that unlocks and does not re-lock, called in a loop; a helper reading
+`len(c.items)` called without the lock -/
+example : analyse ⟨"Get", [.lock, .acc .read .items, .unlock,
+    .call "touch" [.acc .write .usage, .acc .read .usage, .acc .write .usage], .ret]⟩ = false := by decide
+example : analyse ⟨"Set", [.lock, .loop [.acc .read .size] [.acc .write .items,
+    .call "notify" [.ite [.acc .read .conf] [.ret] [], .unlock, .callOnDelete]], .unlock]⟩ = false := by decide
+example : analyse ⟨"Stats", [.call "count" [.acc .read .items, .ret], .acc .atomic .hit, .ret]⟩ = false := by decide
 
 /-- the hypotheses of `no_race` are satisfiable with a genuinely conflicting pair: two threads
 each run the one-section method `[lock; size := …; unlock]`, one after the other. -/
@@ -235,7 +318,7 @@ example :
     let tr : Trace := [(0, .lock), (0, .acc .write .size), (0, .unlock), (1, .lock), (1, .acc .write .size), (1, .unlock)]
     analyse m = true ∧ (∀ t, ThreadOf [m] (proj t tr)) ∧ MutexOK tr := by
   intro m tr
-  have hp : Path m.body [.lock, .acc .write .size, .unlock] := ⟨false, .lock (.acc (.unlock .nil))⟩
+  have hp : Path m.body [.lock, .acc .write .size, .unlock] := .inl (.lock (.acc (.unlock .nil)))
   have one : ThreadTrace [m] ([Ev.lock, .acc .write .size, .unlock] ++ []) :=
     .call (List.mem_singleton.mpr rfl) hp .nil
   refine ⟨by decide, ?_, by unfold MutexOK; decide⟩
@@ -258,7 +341,7 @@ example :
       .lock, .acc .write .size] := by
   intro m
   have hp : Path m.body [.lock, .acc .write .items, .unlock, .callOnDelete, .lock, .acc .write .size, .unlock] :=
-    ⟨false, .lock (.acc (.unlock (.callOnDelete (.lock (.acc (.unlock .nil))))))⟩
+    .inl (.lock (.acc (.unlock (.callOnDelete (.lock (.acc (.unlock .nil)))))))
   have one : ThreadTrace [m] ([Ev.lock, .acc .write .items, .unlock, .callOnDelete, .lock, .acc .write .size, .unlock] ++ []) :=
     .call (List.mem_singleton.mpr rfl) hp .nil
   refine ⟨by decide, [.unlock], ?_⟩
